@@ -13,6 +13,7 @@ Piece(sym) == CASE sym = "x" -> <<82>> [] sym = "A" -> <<105, 110>> [] sym = "B"
                 [] sym = "1" -> <<49>> [] sym = "sp" -> <<32>> [] sym = "^" -> <<94>> [] sym = "_" -> <<95>>
                 [] sym = ">" -> <<62>> [] sym = "<" -> <<60>> [] sym = "=" -> <<61>> [] sym = "." -> <<46>>
                 [] sym = "G" -> <<82>>       \* the braces of a balanced group are not characters for a reader
+                [] sym = "E" -> <<>>         \* "{}": an empty balanced group
                 [] OTHER -> <<>>
 Ch(cp) == [t |-> "c", v |-> cp, p |-> -1]
 Kw(name, param) == [t |-> "k", v |-> name, p |-> param]
@@ -49,30 +50,32 @@ GluedToField(s, e) == FieldTrailingSpace /\ e + 1 <= Len(s) /\ s[e + 1] = "F"
 KCommand(s, i, conv, k) ==
   LET e == RunEnd(s, i + 1)                       \* letters glued to the command name
       name == k.name \o RunName(s, i + 1, e)
-      braced == e + 1 <= Len(s) /\ s[e + 1] = "G"
+      braced == e + 1 <= Len(s) /\ s[e + 1] \in {"G", "E"}
+      grp == IF braced THEN Chars(Piece(s[e + 1])) ELSE <<>>
   IN IF k.braced
      THEN (IF conv THEN << Chars(k.cps), i + 1 >> ELSE << <<Kw(k.name, -1)>> \o Chars(k.arg), i + 1 >>)
-     ELSE IF ~conv THEN (IF braced THEN << <<Kw(name, -1), Ch(82)>>, e + 2 >> ELSE Verbatim(s, name, e + 1))
+     ELSE IF ~conv THEN (IF braced THEN << <<Kw(name, -1)>> \o grp, e + 2 >> ELSE Verbatim(s, name, e + 1))
      ELSE IF GluedToField(s, e) THEN << <<Kw(name, -1)>>, e + 1 >>
-     ELSE IF e >= i + 1 THEN Verbatim(s, name, e + 1)                                \* longest letter run: another, unknown, name
-     ELSE IF braced THEN << <<Kw(name, -1), Ch(82)>>, e + 2 >>                       \* looked up together with the group: unknown
+     ELSE IF e >= i + 1 /\ ~braced THEN Verbatim(s, name, e + 1)                     \* longest letter run: another, unknown, name
+     ELSE IF braced THEN << <<Kw(name, -1)>> \o grp, e + 2 >>                        \* looked up together with the group: unknown
      ELSE << Chars(k.cps), i + 1 >>
 \* a command that stays verbatim in the file: following letters belong to its name, a directly
 \* following group is read as a group, a digit run as its parameter
 VerbatimCmd(s, i, name0) ==
   LET e == RunEnd(s, i + 1)
       name == name0 \o RunName(s, i + 1, e)
-  IN IF e + 1 <= Len(s) /\ s[e + 1] = "G" THEN << <<Kw(name, -1), Ch(82)>>, e + 2 >> ELSE Verbatim(s, name, e + 1)
+  IN IF e + 1 <= Len(s) /\ s[e + 1] \in {"G", "E"} THEN << <<Kw(name, -1)>> \o Chars(Piece(s[e + 1])), e + 2 >> ELSE Verbatim(s, name, e + 1)
 Command(s, i, conv) ==
   LET e == RunEnd(s, i + 1)
       name == RunName(s, i + 1, e)
-      braced == e + 1 <= Len(s) /\ s[e + 1] = "G"
+      braced == e + 1 <= Len(s) /\ s[e + 1] \in {"G", "E"}
+      grp == IF braced THEN Chars(Piece(s[e + 1])) ELSE <<>>
   IN IF e < i + 1 THEN << <<>>, i + 1 >>                                   \* lone backslash: outside the quantifier
-     ELSE IF ~conv THEN (IF braced THEN << <<Kw(name, -1), Ch(82)>>, e + 2 >> ELSE Verbatim(s, name, e + 1))
+     ELSE IF ~conv THEN (IF braced THEN << <<Kw(name, -1)>> \o grp, e + 2 >> ELSE Verbatim(s, name, e + 1))
      ELSE IF s[i + 1] = "p" THEN << <<Kw("chpgn", -1)>> \o RunChars(s, i + 2, e), e + 1 >>      \* page-number keyword
      ELSE IF GluedToField(s, e) THEN << <<Kw(name, -1)>>, e + 1 >>
-     ELSE IF braced THEN (IF name = "mathbb" THEN << <<Ch(8477)>>, e + 2 >>         \* \mathbb{R}
-                          ELSE << <<Kw(name, -1), Ch(82)>>, e + 2 >>)                 \* looked up together: unknown
+     ELSE IF braced THEN (IF name = "mathbb" /\ s[e + 1] = "G" THEN << <<Ch(8477)>>, e + 2 >>         \* \mathbb{R}
+                          ELSE << <<Kw(name, -1)>> \o grp, e + 2 >>)                 \* looked up together: unknown
      ELSE IF name = "in" THEN << <<Ch(8712)>>, e + 1 >>
      ELSE IF name = "int" THEN << <<Ch(8747)>>, e + 1 >>
      ELSE Verbatim(s, name, e + 1)
